@@ -48,7 +48,11 @@ ArrArms == <<
   Arm(PArr(<<SVar("a"), SVar("b")>>, "none", "", <<>>), GNone, Plus("b", 340)),
   Arm(PArr(<<SVar("x")>>, "none", "", <<>>), GNone, Plus("x", 350)),
   Arm(PWild, GNone, ELit(360)),
-  Arm(PArr(<<SVar("h")>>, "anon", "", <<SVar("l")>>), GGt("h", "l"), Plus("h", 370)) >>
+  Arm(PArr(<<SVar("h")>>, "anon", "", <<SVar("l")>>), GGt("h", "l"), Plus("h", 370)),
+  (* element patterns on BOTH sides of the spread, no guard: they need at least #head + #tail elements (a vector that is *)
+  (* long enough for the head alone and for the tail alone, but not for both, must fall through to a later arm)          *)
+  Arm(PArr(<<SVar("p")>>, "anon", "", <<SVar("q")>>), GNone, Plus("q", 380)),
+  Arm(PArr(<<SVar("a"), SVar("b")>>, "anon", "", <<SVar("c")>>), GNone, Plus("c", 390)) >>
 EnumArms == <<
   Arm(PEnum("circle", <<SLit(0)>>), GNone, ELit(400)),
   Arm(PEnum("circle", <<SVar("r")>>), GNone, Plus("r", 410)),
@@ -60,7 +64,7 @@ EnumArms == <<
 Fams == {"scalar", "pair", "arr", "enum"}
 FamArms(f) == CASE f = "scalar" -> ScalarArms [] f = "pair" -> PairArms [] f = "arr" -> ArrArms [] f = "enum" -> EnumArms
 (* function arms have no guard syntax: the guarded arms exist only in match expressions *)
-FnIds(f)    == CASE f = "scalar" -> 1..5 [] f = "pair" -> (1..6) \cup (10..14) [] f = "arr" -> 1..7 [] f = "enum" -> 1..5
+FnIds(f)    == CASE f = "scalar" -> 1..5 [] f = "pair" -> (1..6) \cup (10..14) [] f = "arr" -> (1..7) \cup {9, 10} [] f = "enum" -> 1..5
 MatchIds(f) == 1..Len(FamArms(f))
 Forms(f) == IF f = "pair" THEN {"fn", "fn1t", "match"} ELSE {"fn", "match"}
 Ids(f, form) == IF form = "match" THEN MatchIds(f)
